@@ -23,6 +23,9 @@ variable {α : Type}
 /-- pairwise inequivalent -/
 def Inequiv (R : Rules α) (l : List α) : Prop := l.Pairwise (fun a b => R.equiv a b = false)
 
+instance (R : Rules α) (l : List α) : Decidable (Inequiv R l) :=
+  inferInstanceAs (Decidable (l.Pairwise (fun a b => R.equiv a b = false)))
+
 /-- The representation invariant: bucket ids strictly ascending, no empty
 bucket, every member in the bucket of its hash, no two equivalent members
 anywhere in the set. -/
